@@ -42,8 +42,10 @@ package sunlight
 //@   defines ret == mtlOf(*e)
 //@   panics-unless [C12] encodable: e != nil && len(e.Certificate) < 16777216 && (e.RFC6962ArchivalLeaf || (0 <= e.LeafIndex && e.LeafIndex < 1099511627776))
 //@   returns [C12] returns-only-for-encodable-entries: len(e.Certificate) < 16777216 && (e.RFC6962ArchivalLeaf || (0 <= e.LeafIndex && e.LeafIndex < 1099511627776))
-//@   ensures [C12] rfc6962-layout-x509: (!e.IsPrecert && (e.Timestamp >= 0 && len(e.Certificate) < 16777216 && (e.RFC6962ArchivalLeaf || (0 <= e.LeafIndex && e.LeafIndex < 1099511627776)))) ==> ret == mtlSpec(*e)
-//@   ensures [C12] rfc6962-layout-precert: (e.IsPrecert && (e.Timestamp >= 0 && len(e.Certificate) < 16777216 && (e.RFC6962ArchivalLeaf || (0 <= e.LeafIndex && e.LeafIndex < 1099511627776)))) ==> ret == mtlSpec(*e)
+//@   ensures [C12] rfc6962-layout-x509-archival: (!e.IsPrecert && e.RFC6962ArchivalLeaf && e.Timestamp >= 0 && len(e.Certificate) < 16777216) ==> ret == mtlSpec(*e)
+//@   ensures [C12] rfc6962-layout-x509-indexed: (!e.IsPrecert && !e.RFC6962ArchivalLeaf && e.Timestamp >= 0 && len(e.Certificate) < 16777216 && 0 <= e.LeafIndex && e.LeafIndex < 1099511627776) ==> ret == mtlSpec(*e)
+//@   ensures [C12] rfc6962-layout-precert-archival: (e.IsPrecert && e.RFC6962ArchivalLeaf && e.Timestamp >= 0 && len(e.Certificate) < 16777216) ==> ret == mtlSpec(*e)
+//@   ensures [C12] rfc6962-layout-precert-indexed: (e.IsPrecert && !e.RFC6962ArchivalLeaf && e.Timestamp >= 0 && len(e.Certificate) < 16777216 && 0 <= e.LeafIndex && e.LeafIndex < 1099511627776) ==> ret == mtlSpec(*e)
 
 //@ pure func extBytes(e sunlight.LogEntry) bytes = ite(e.RFC6962ArchivalLeaf, u16(0), u16(8) + marshalExt(e.LeafIndex))
 //@ pure func mtlBody(e sunlight.LogEntry) bytes = ite(e.IsPrecert, u8(0) + u8(0) + u64(e.Timestamp) + u16(1) + e.IssuerKeyHash + u24(len(e.Certificate)) + e.Certificate, u8(0) + u8(0) + u64(e.Timestamp) + u16(0) + u24(len(e.Certificate)) + e.Certificate)
